@@ -16,8 +16,6 @@ whose outcome is not reported (reset) branch the oracle and the reported state m
 branch. The qubit order convention of `state_result` (first listed qubit = most or least
 significant bit) is calibrated once per worker on asymmetric basis states.
 """
-import json
-import math
 import os
 import sys
 
@@ -783,10 +781,14 @@ def strategies():
                             live.remove(q)
                 continue
             cands = [(ns, g) for ns, g in pool if nsim.ARITY[g] <= len(live)]
-            # favour multi-qubit gates a little so that argument order is exercised
-            multi = [c for c in cands if nsim.ARITY[c[1]] >= 2]
-            if multi and draw(st.integers(0, 9)) < 3:
-                cands = multi
+            # stratify: (arity, parametrised?) class first, then the binding inside the class, so that
+            # rotations and multi-qubit gates (argument order!) keep a fixed share
+            classes = {}
+            for ns, g in cands:
+                classes.setdefault((min(nsim.ARITY[g], 3), g in nsim.NPARAM), []).append((ns, g))
+            weights = {(1, False): 3, (1, True): 3, (2, False): 3, (2, True): 2, (3, False): 1}
+            menu = [k for k in sorted(classes) for _ in range(weights[k])]
+            cands = classes[draw(st.sampled_from(menu))]
             ns, g = draw(st.sampled_from(cands))
             qs = list(draw(st.permutations(live))[: nsim.ARITY[g]])
             op = {"k": "g", "ns": ns, "g": g, "q": qs}
@@ -838,7 +840,7 @@ def worker(ctx):
     import time
 
     try:
-        msb = get_msb()
+        get_msb()
     except harness.HarnessError as e:
         ctx.harness_error(str(e))
         return
@@ -957,12 +959,14 @@ SPEC = harness.Spec(
         "state_result qubit order (first listed qubit = most/least significant bit) is calibrated per worker on X-prepared basis states, not assumed",
         "the 1/sqrt2 prefactor printed in front of the whole CH docstring matrix is read as applying to the H block only (controlled-H)",
         "reset reports no outcome: the oracle branches on both outcomes and the reported state must equal one branch; discard = the qubit is traced out",
+        "when the listed qubits are entangled with discarded ones (mixed state) the observed reduced density matrix is taken from the simulator's full statevector (PartialVector._inner.get_density_matrix): selene's state_distribution() uses np.linalg.eig whose eigenvectors of a degenerate eigenvalue are not orthogonal, so sum p|v><v| of the public distribution does not reproduce the state; pure states go through the public state_distribution() API",
+        "circuits of one program run one after the other (one function per circuit, called from a run-time loop); emulator seed drawn per program",
         "float / angle (angle.__rtruediv__) is not generated: no documented meaning",
         "std.qsystem.measure / measure_and_reset are not executable on the installed selene (DESIGN 1.4) and are left out",
     ],
     shards={"quick": 16, "thorough": 16},
     budget_s={"quick": 90, "thorough": 840},
-    params={"quick": {"n": 384}, "thorough": {"n": 6400}},
+    params={"quick": {"n": 256}, "thorough": {"n": 6400}},
     min_nontrivial=100,
 )
 
